@@ -234,13 +234,23 @@ func drain(it dbm.Iterator) (o obsT) {
 	o.tag = 2
 	o.k0 = cp(it.Key())
 	o.v0 = cp(it.Value())
+	// callers keep the slices Key()/Value() return (the store collects keys while it iterates):
+	// what was returned must not change when the iterator moves on
+	var kept [][2][]byte
 	for n := 0; it.Next(); n++ {
-		o.items = append(o.items, [2][]byte{cp(it.Key()), cp(it.Value())})
+		k, v := it.Key(), it.Value()
+		kept = append(kept, [2][]byte{k, v})
+		o.items = append(o.items, [2][]byte{cp(k), cp(v)})
 		if n > 100000 {
 			panic("iterator does not terminate")
 		}
 	}
 	o.again = it.Next()
+	for i := range kept {
+		if !bytes.Equal(kept[i][0], o.items[i][0]) || !bytes.Equal(kept[i][1], o.items[i][1]) {
+			return obsT{tag: 3, msg: fmt.Sprintf("the slices returned by Key()/Value() for entry %d changed after later Next() calls", i)}
+		}
+	}
 	return o
 }
 
